@@ -184,7 +184,8 @@ structure PInv (deps : List (CompId × Mask)) (ic : List (CompId × Val)) (base 
     (ent : SEnt) (scbs : List SCb) : Prop where
   comps : ent.comps = p.final.map (fun x => (x, pform info ic p x))
   sorted : MaskOk p.final
-  closedF : ClosedUnder deps p.final
+  /-- an existing entity's archetype may predate a dependency declaration: the set is closed once it has changed -/
+  closedF : p.final = base ∨ ClosedUnder deps p.final
   srcSub : ∀ q ∈ p.src, q.1 ∈ p.final
   srcNodup : (p.src.map (·.1)).Nodup
   gone : ∀ q ∈ ic, q.1 ∉ p.final → q.1 ∈ p.replaced
@@ -371,7 +372,7 @@ theorem pinv_assign {deps : List (CompId × Mask)} {ic : List (CompId × Val)} {
     rw [hdo, hpst]
     refine ⟨_, setEnt_alive_self S hk _, rfl, ?_, frameK_setEnt S k _, rfl⟩
     refine
-    { comps := ?_, sorted := haok, closedF := closedMask_closed hdb _, srcSub := ?_, srcNodup := ?_, gone := ?_, net := ?_
+    { comps := ?_, sorted := haok, closedF := Or.inr (closedMask_closed hdb _), srcSub := ?_, srcNodup := ?_, gone := ?_, net := ?_
       repl := ?_, nocb := ?_, other := ?_, alive := halive
       srcRepl := by
         intro q hq
@@ -487,6 +488,61 @@ theorem pform_remove_ne (ic : List (CompId × Val)) (p p' : PackSt) (c : CompId)
   unfold pform
   rw [hs, find_filter_ne' _ _ hx, hr]
 
+/-- the balance of the callbacks after one more change of the component set -/
+theorem net_cbDiff (k : Nat) (scbs : List SCb) (base final next : Mask) (hf : final.Nodup) (hn : next.Nodup) (x : CompId)
+    (hx : (info x).callbacks = true)
+    (h : scbs.count (true, x, k) + (if x ∈ base then 1 else 0) = scbs.count (false, x, k) + (if x ∈ final then 1 else 0)) :
+    (scbs ++ cbDiff info k final next).count (true, x, k) + (if x ∈ base then 1 else 0) =
+      (scbs ++ cbDiff info k final next).count (false, x, k) + (if x ∈ next then 1 else 0) := by
+  rw [List.count_append, List.count_append, count_cbDiff_assign info k _ _ hn, count_cbDiff_remove info k _ _ hf]
+  by_cases hxf : x ∈ final
+  · rw [if_pos hxf] at h
+    have hA : (if k = k ∧ x ∈ next ∧ (info x).callbacks = true ∧ x ∉ final then 1 else 0) = (0 : Nat) :=
+      if_neg (fun h => h.2.2.2 hxf)
+    by_cases hxn : x ∈ next
+    · have hR : (if k = k ∧ x ∈ final ∧ (info x).callbacks = true ∧ x ∉ next then 1 else 0) = (0 : Nat) :=
+        if_neg (fun h => h.2.2.2 hxn)
+      have hN : (if x ∈ next then 1 else 0) = (1 : Nat) := if_pos hxn
+      rw [hA, hR, hN]; omega
+    · have hR : (if k = k ∧ x ∈ final ∧ (info x).callbacks = true ∧ x ∉ next then 1 else 0) = (1 : Nat) :=
+        if_pos ⟨rfl, hxf, hx, hxn⟩
+      have hN : (if x ∈ next then 1 else 0) = (0 : Nat) := if_neg hxn
+      rw [hA, hR, hN]; omega
+  · rw [if_neg hxf] at h
+    have hR : (if k = k ∧ x ∈ final ∧ (info x).callbacks = true ∧ x ∉ next then 1 else 0) = (0 : Nat) :=
+      if_neg (fun h => hxf h.2.1)
+    by_cases hxn : x ∈ next
+    · have hA : (if k = k ∧ x ∈ next ∧ (info x).callbacks = true ∧ x ∉ final then 1 else 0) = (1 : Nat) :=
+        if_pos ⟨rfl, hxn, hx, hxf⟩
+      have hN : (if x ∈ next then 1 else 0) = (1 : Nat) := if_pos hxn
+      rw [hA, hR, hN]; omega
+    · have hA : (if k = k ∧ x ∈ next ∧ (info x).callbacks = true ∧ x ∉ final then 1 else 0) = (0 : Nat) :=
+        if_neg (fun h => hxn h.2.1)
+      have hN : (if x ∈ next then 1 else 0) = (0 : Nat) := if_neg hxn
+      rw [hA, hR, hN]; omega
+
+/-- a component outside the current set has the default value in the formula (it was never there, or it was
+replaced on the way) -/
+theorem PInv.pform_new {deps : List (CompId × Mask)} {ic : List (CompId × Val)} {base : Mask} {k : Nat} {p : PackSt}
+    {ent : SEnt} {scbs : List SCb} (hp : PInv info deps ic base k p ent scbs) {x : CompId} (hxf : x ∉ p.final) :
+    pform info ic p x = defaultVal info x := by
+  unfold pform
+  have hsn : p.src.find? (·.1 == x) = none := by
+    rw [List.find?_eq_none]
+    intro q hq hqx
+    have : q.1 = x := by simpa using hqx
+    exact hxf (this ▸ hp.srcSub q hq)
+  rw [hsn]
+  simp only
+  cases hf : ic.find? (·.1 == x) with
+  | none => rfl
+  | some q =>
+    simp only
+    have hq1 : q.1 = x := by simpa using List.find?_some hf
+    have := hp.gone q (List.mem_of_find?_eq_some hf) (by rw [hq1]; exact hxf)
+    rw [hq1] at this
+    rw [(contains_iff _ _).mpr this]; rfl
+
 /-- a deferred `removeComponent` -/
 theorem pinv_remove {deps : List (CompId × Mask)} {ic : List (CompId × Val)} {base : Mask} {k : Nat} {p : PackSt}
     {ent : SEnt} {scbs : List SCb} (hp : PInv info deps ic base k p ent scbs) (hdb : DepsBounded deps) (S : WS)
@@ -507,20 +563,10 @@ theorem pinv_remove {deps : List (CompId × Mask)} {ic : List (CompId × Val)} {
     exact ⟨ent, hal, rfl, hp, FrameK.refl S k, rfl⟩
   have hc : c ∈ p.final := Classical.not_not.mp hc
   have hcc : p.final.contains c = true := (contains_iff _ _).mpr hc
-  have hsubF : ∀ x ∈ closedMask deps (Mask.erase p.final c), x ∈ p.final :=
-    closedMask_least hp.closedF (fun y hy => ((mem_erase _ _ _).mp hy).1)
   have haok : MaskOk (closedMask deps (Mask.erase p.final c)) := maskOk_closedMask deps (maskOk_erase hfok c)
-  by_cases hca : c ∈ closedMask deps (Mask.erase p.final c)
-  · -- the closure puts the component back
-    have heq : closedMask deps (Mask.erase p.final c) = p.final := by
-      apply sorted_ext haok hfok
-      intro x
-      constructor
-      · exact hsubF x
-      · intro hx
-        by_cases hxc : x = c
-        · rw [hxc]; exact hca
-        · exact subset_closedMask ((mem_erase _ _ _).mpr ⟨hx, hxc⟩)
+  by_cases heq : closedMask deps (Mask.erase p.final c) = p.final
+  · -- the closure puts the component back and nothing else changes
+    have hca : c ∈ closedMask deps (Mask.erase p.final c) := by rw [heq]; exact hc
     have hpst : pst deps p (.remove e c) = p := by
       have h1 : pst deps p (.remove e c) = { p with final := closedMask deps (Mask.erase p.final c) } := by
         simp only [pst, halive, Bool.false_eq_true, if_false, hcc, if_true, (contains_iff _ _).mpr hca]
@@ -533,14 +579,61 @@ theorem pinv_remove {deps : List (CompId × Mask)} {ic : List (CompId × Val)} {
       simp only [this, if_true]
     rw [hdo, hpst, List.append_nil]
     exact ⟨ent, hal, rfl, hp, FrameK.refl S k, rfl⟩
-  · have hne : (closed deps (Mask.erase p.final c) == p.final) = false := by
-      have : closed deps (Mask.erase p.final c) ≠ p.final := by
-        intro h
-        apply hca
-        have : closedMask deps (Mask.erase p.final c) = p.final := h
-        rw [this]; exact hc
-      simpa using this
-    have hpst : pst deps p (.remove e c) =
+  have hne : (closed deps (Mask.erase p.final c) == p.final) = false := by
+    have : closed deps (Mask.erase p.final c) ≠ p.final := heq
+    simpa using this
+  by_cases hca : c ∈ closedMask deps (Mask.erase p.final c)
+  · -- the closure puts the component back (its master is there) and adds what the set lacked: `c` is carried over
+    have hsubN : ∀ x ∈ p.final, x ∈ closedMask deps (Mask.erase p.final c) := by
+      intro x hx
+      by_cases hxc : x = c
+      · rw [hxc]; exact hca
+      · exact subset_closedMask ((mem_erase _ _ _).mpr ⟨hx, hxc⟩)
+    have hpst : pst deps p (.remove e c) = { p with final := closedMask deps (Mask.erase p.final c) } := by
+      simp only [pst, halive, Bool.false_eq_true, if_false, hcc, if_true, (contains_iff _ _).mpr hca]
+    have hdo : S.doRemove info k c =
+        (S.setEnt k (some { ent with comps := (rebuild info ent.comps (closedMask deps (Mask.erase p.final c)) []) }),
+          cbDiff info k p.final (closedMask deps (Mask.erase p.final c))) := by
+      have hcaS : (closed deps (Mask.erase p.final c)).contains c = true := (contains_iff _ _).mpr hca
+      simp only [WS.doRemove, hal, hcs, hcc, Bool.not_true, Bool.false_eq_true, if_false, hdeps, hne, hcaS, if_true]
+      rfl
+    rw [hdo, hpst]
+    refine ⟨_, setEnt_alive_self S hk _, rfl, ?_, frameK_setEnt S k _, rfl⟩
+    refine
+    { comps := ?_, sorted := haok, closedF := Or.inr (closedMask_closed hdb _), srcSub := ?_, srcNodup := hp.srcNodup
+      gone := ?_, net := ?_, repl := ?_, nocb := ?_, other := ?_, alive := halive, srcRepl := hp.srcRepl }
+    · show rebuild info ent.comps _ [] = _
+      rw [rebuild_eq]
+      apply List.map_congr_left
+      intro x hx
+      unfold specPair
+      rw [hp.comps, find_map_key]
+      by_cases hxf : x ∈ p.final
+      · rw [if_pos hxf]; rfl
+      · rw [if_neg hxf]
+        simp only [List.find?_nil]
+        exact congrArg (Prod.mk x) (hp.pform_new info hxf).symm
+    · intro q hq
+      exact hsubN _ (hp.srcSub q hq)
+    · intro q hq hnf
+      exact hp.gone q hq (fun h => hnf (hsubN _ h))
+    · intro x hx
+      exact net_cbDiff info k scbs base _ _ (maskOk_nodup hfok) (maskOk_nodup haok) x hx (hp.net x hx)
+    · intro x hx hcb
+      rw [List.count_append]
+      have := hp.repl x hx hcb
+      omega
+    · intro b x o hcb
+      rw [List.count_append, hp.nocb b x o hcb]
+      cases b with
+      | true => rw [count_cbDiff_assign info k _ _ (maskOk_nodup haok)]; simp [hcb]
+      | false => rw [count_cbDiff_remove info k _ _ (maskOk_nodup hfok)]; simp [hcb]
+    · intro b x o ho
+      rw [List.count_append, hp.other b x o ho]
+      cases b with
+      | true => rw [count_cbDiff_assign info k _ _ (maskOk_nodup haok)]; simp [ho]
+      | false => rw [count_cbDiff_remove info k _ _ (maskOk_nodup hfok)]; simp [ho]
+  · have hpst : pst deps p (.remove e c) =
         { p with final := closedMask deps (Mask.erase p.final c), replaced := Mask.insert p.replaced c,
                  src := p.src.filter (·.1 != c) } := by
       simp only [pst, halive, Bool.false_eq_true, if_false, hcc, if_true, contains_false_iff.mpr hca]
@@ -554,8 +647,8 @@ theorem pinv_remove {deps : List (CompId × Mask)} {ic : List (CompId × Val)} {
     rw [hdo, hpst]
     refine ⟨_, setEnt_alive_self S hk _, rfl, ?_, frameK_setEnt S k _, rfl⟩
     refine
-    { comps := ?_, sorted := haok, closedF := closedMask_closed hdb _, srcSub := ?_, srcNodup := ?_, gone := ?_, net := ?_
-      repl := ?_, nocb := ?_, other := ?_, alive := halive
+    { comps := ?_, sorted := haok, closedF := Or.inr (closedMask_closed hdb _), srcSub := ?_, srcNodup := ?_, gone := ?_
+      net := ?_, repl := ?_, nocb := ?_, other := ?_, alive := halive
       srcRepl := by
         intro q hq
         rcases hp.srcRepl q (List.mem_filter.mp hq).1 with h1 | h1
@@ -565,14 +658,18 @@ theorem pinv_remove {deps : List (CompId × Mask)} {ic : List (CompId × Val)} {
       rw [rebuild_eq]
       apply List.map_congr_left
       intro x hx
-      have hxf := hsubF x hx
       have hxc : x ≠ c := fun e' => hca (e' ▸ hx)
       unfold specPair
-      rw [find_filter_ne' _ _ hxc, hp.comps, find_map_key, if_pos hxf]
-      simp only
-      rw [pform_remove_ne info ic p
-        { p with final := closedMask deps (Mask.erase p.final c), replaced := Mask.insert p.replaced c,
-                 src := p.src.filter (·.1 != c) } c hxc rfl (contains_insert_ne _ _ hxc)]
+      rw [find_filter_ne' _ _ hxc, hp.comps, find_map_key]
+      have hpf : pform info ic { p with final := closedMask deps (Mask.erase p.final c), replaced := Mask.insert p.replaced c, src := p.src.filter (·.1 != c) } x = pform info ic p x :=
+        pform_remove_ne info ic p _ c hxc rfl (contains_insert_ne _ _ hxc)
+      by_cases hxf : x ∈ p.final
+      · rw [if_pos hxf]
+        simp only
+        rw [hpf]
+      · rw [if_neg hxf]
+        simp only [List.find?_nil]
+        rw [hpf, hp.pform_new info hxf]
     · intro q hq
       have h1 := List.mem_filter.mp hq
       have hne : q.1 ≠ c := by simpa using h1.2
@@ -587,30 +684,7 @@ theorem pinv_remove {deps : List (CompId × Mask)} {ic : List (CompId × Val)} {
         exact (mem_insert _ _ _).mpr (Or.inl this)
       · exact (mem_insert _ _ _).mpr (Or.inr (hp.gone q hq hqf))
     · intro x hx
-      rw [List.count_append, List.count_append, count_cbDiff_assign info k _ _ (maskOk_nodup haok),
-        count_cbDiff_remove info k _ _ (maskOk_nodup hfok)]
-      have := hp.net x hx
-      have hA : (if k = k ∧ x ∈ closedMask deps (Mask.erase p.final c) ∧ (info x).callbacks = true ∧ x ∉ p.final
-          then 1 else 0) = (0 : Nat) := if_neg (fun h => h.2.2.2 (hsubF x h.2.1))
-      rw [hA]
-      by_cases hxa : x ∈ closedMask deps (Mask.erase p.final c)
-      · have hxf := hsubF x hxa
-        have hR : (if k = k ∧ x ∈ p.final ∧ (info x).callbacks = true ∧ x ∉ closedMask deps (Mask.erase p.final c)
-            then 1 else 0) = (0 : Nat) := if_neg (fun h => h.2.2.2 hxa)
-        rw [hR, if_pos hxa]
-        rw [if_pos hxf] at this
-        omega
-      · by_cases hxf : x ∈ p.final
-        · have hR : (if k = k ∧ x ∈ p.final ∧ (info x).callbacks = true ∧ x ∉ closedMask deps (Mask.erase p.final c)
-              then 1 else 0) = (1 : Nat) := if_pos ⟨rfl, hxf, hx, hxa⟩
-          rw [hR, if_neg hxa]
-          rw [if_pos hxf] at this
-          omega
-        · have hR : (if k = k ∧ x ∈ p.final ∧ (info x).callbacks = true ∧ x ∉ closedMask deps (Mask.erase p.final c)
-              then 1 else 0) = (0 : Nat) := if_neg (fun h => hxf h.2.1)
-          rw [hR, if_neg hxa]
-          rw [if_neg hxf] at this
-          omega
+      exact net_cbDiff info k scbs base _ _ (maskOk_nodup hfok) (maskOk_nodup haok) x hx (hp.net x hx)
     · intro x hx hcb
       rw [List.count_append]
       rcases (mem_insert _ _ _).mp hx with rfl | h
